@@ -68,7 +68,26 @@ LEDGER_VARIANTS = ["genuine", "genuine-reordered", "key-replaced", "btc-key-repl
                    "signer-header-major6", "ui-other-seed-key", "missing-ui-target",
                    "missing-signer-target", "wrong-root", "malformed-root", "flip-signature",
                    "ui-extended", "ui-truncated", "pubkeys-not-json", "pubkey-invalid",
-                   "legacy-len+1", "legacy-len-1", "legacy-len+32"]
+                   "legacy-len+1", "legacy-len-1", "legacy-len+32", "genuine-odd-paths",
+                   "odd-paths-hash-in-numeric-order"]
+
+
+def odd_paths(rng, must_have=None):
+    """operator key sets whose path names sort differently as text and as numbers"""
+    import re as _re
+    pool = ["m/44'/2'/0'/0/0", "m/44'/10'/0'/0/0", "m/44'/9'/0'/0/0", "m/44'/137'/0'/0/10",
+            "m/44'/137'/0'/0/9", "m/44'/100'/0'/0/0", "m/44'/1'/10'/0/0", "m/5'/0'/0'/0/0",
+            "m/44'/0'/0'/0/2", "m/44'/0'/0'/0/10", "key10", "key9", "Key1", "a", "B"]
+    while True:
+        paths = rng.sample(pool, rng.randint(3, 7)) + rng.sample(la.PATHS, rng.randint(0, 4))
+        if must_have and must_have not in paths:
+            paths.append(must_have)
+        paths = list(dict.fromkeys(paths))
+
+        def natural(s):
+            return [int(t) if t.isdigit() else t for t in _re.split(r"(\d+)", s)]
+        if sorted(paths) != sorted(paths, key=natural):
+            return paths, natural
 
 
 def ledger_case(acc, rng, variant, tmpdir, case):
@@ -81,13 +100,27 @@ def ledger_case(acc, rng, variant, tmpdir, case):
     if variant == "legacy-header-dot-wildcard" or variant.startswith("legacy-len"):
         form = "legacy"
     keys = la.operator_keys(rng)
+    if variant in ("genuine-odd-paths", "odd-paths-hash-in-numeric-order"):
+        paths, natural = odd_paths(rng, la.BTC_PATH)
+        keys = la.operator_keys(rng, paths)
     doc, info = la.build(rng, keys, signer_form=form)
+    if variant == "odd-paths-hash-in-numeric-order":
+        # the device hashed the same keys, but ordered by the numbers in the paths
+        import hashlib as _hl
+        h = _hl.sha256()
+        for pth in sorted(keys, key=natural):
+            h.update(g1.pub65(keys[pth]))
+        wrong = h.digest()
+        m2 = info["signer_msg"].replace(info["keys_hash"], wrong)
+        la.resign(doc, info, "signer", m2, rng)
     file_form = rng.choice(["uncompressed", "compressed"])
     pk = la.pubkeys_file(keys, file_form)
     root_hex = g1.pub65(info["root"]).hex()
     expect_ok = True
     either = False
     kh = info["keys_hash"]
+    if variant == "odd-paths-hash-in-numeric-order":
+        expect_ok = False
     if variant == "genuine-reordered":
         items = list(pk.items())
         rng.shuffle(items)
@@ -245,6 +278,8 @@ def ledger_case(acc, rng, variant, tmpdir, case):
             acc.violation("printed-value-differs:ledger:%s" % lab.split(" (")[0],
                           {"got": got, "want": w, "variant": variant}, case)
     for p, k in keys.items():
+        if not p.startswith("m/"):
+            continue
         acc.count("printed_values_compared")
         got = printed(out, p)
         if got != g1.pub33(k).hex():
@@ -259,16 +294,29 @@ SGX_VARIANTS = ["genuine", "genuine-reordered", "key-replaced", "keys-swapped-pa
                 "key-added", "key-removed", "msg-len+1", "msg-len-1", "msg-len+32",
                 "msg-len-32", "header-dot-wildcard", "header-foreign", "header-major6",
                 "missing-quote-target", "wrong-root", "root-not-self-signed", "root-expired",
-                "root-missing-file", "flip-quote-signature", "custom-data-other"]
+                "root-missing-file", "flip-quote-signature", "custom-data-other",
+                "genuine-odd-paths", "odd-paths-hash-in-numeric-order"]
 
 
 def sgx_case(acc, rng, variant, tmpdir, case):
     from admin.verify_sgx_attestation import do_verify_attestation
     keys = la.operator_keys(rng)
+    natural = None
+    if variant in ("genuine-odd-paths", "odd-paths-hash-in-numeric-order"):
+        paths, natural = odd_paths(rng)
+        keys = la.operator_keys(rng, paths)
     kh = la.keys_hash({p: g1.pub65(k) for p, k in keys.items()})
     pk = la.pubkeys_file(keys, rng.choice(["uncompressed", "compressed"]))
-    msg, fields = g2.powhsm_message(rng, kh, platform=b"sgx")
+    signed_kh = kh
     expect_ok = True
+    if variant == "odd-paths-hash-in-numeric-order":
+        import hashlib as _hl
+        h = _hl.sha256()
+        for pth in sorted(keys, key=natural):
+            h.update(g1.pub65(keys[pth]))
+        signed_kh = h.digest()
+        expect_ok = False
+    msg, fields = g2.powhsm_message(rng, signed_kh, platform=b"sgx")
     if variant.startswith("msg-len"):
         delta = int(variant[len("msg-len"):])
         msg = msg + rng.randbytes(delta) if delta > 0 else msg[:delta]
